@@ -1,5 +1,6 @@
 """C01 — glycosidic assembly yields exactly the molecule the linkages describe."""
 import random
+import re
 
 import chem
 import chemgen
@@ -41,6 +42,26 @@ FIXED = [
     ("Glc(a1-2)[Glc(a1-3)][Glc(a1-4)][Glc(a1-6)]Glc", "four-children"), ("Man(a1-2)[Man(a1-3)][Man(a1-4)][Man(a1-6)]Man(b1-4)GlcNAc", "four-children"),
     ("GlcNAc(b1-2)GlcN", "n-link"), ("Gal(b1-4)GlcNAc(b1-2)ManN", "n-link-deep"), ("Fuc(a1-2)[Gal(b1-4)]GlcN", "n-link-and-o-link"),
 ]
+
+
+def bicyclic_cases(tier):
+    """x,y-anhydro residues (second ring: epoxides, oxetanes, 3,6- and 2,5-bridges on pyranoses and furanoses - their SMILES carry two
+    ring-closure labels, sometimes on one atom) as children through their free anomeric OH, as parents at every free position, and nested"""
+    sugars = ["Glc", "Gal", "Man"] if tier == "quick" else ["Glc", "Gal", "Man", "All", "Alt", "Gul", "Ido", "Tal"]
+    out = []
+    for sgr in sugars:
+        for (a, b), ring in [((2, 3), ""), ((3, 4), ""), ((3, 6), ""), ((2, 3), "f"), ((3, 6), "f"), ((2, 5), "f"), ((5, 6), "f")]:
+            x = "%d,%d-Anhydro-%s%s" % (a, b, sgr, ring)
+            free = [p for p in (2, 3, 4, 5, 6) if p not in (a, b) and p != (4 if ring == "f" else 5)]
+            out.append(("%s(a1-4)Glc" % x, "bicyclic-child"))
+            out.append(("%s(a1-3)[%s(b1-6)]Man" % (x, x), "bicyclic-children"))
+            out.append(("Gal(b1-4)[%s(a1-3)]GlcNAc(b1-2)Man" % x, "bicyclic-child-deep"))
+            for p in free:
+                out.append(("Man(a1-%d)%s" % (p, x), "bicyclic-parent"))
+                out.append(("Man(a1-%d)%s(b1-4)Glc" % (p, x), "bicyclic-inner"))
+            if len(free) >= 2:
+                out.append(("Man(a1-%d)[Gal(b1-%d)]%s(a1-6)Glc" % (free[0], free[1], x), "bicyclic-inner-wide"))
+    return out
 
 
 def parse_full(s):
@@ -109,7 +130,7 @@ def run(rep, tier, driver):
                           "ring walk from the anomeric carbon away from the ring oxygen", key="numbering:" + name)
     rep.extra["residues_numbering_checked"] = len(cv.names) + len(cv.root_only) + len(cv.divergent)
     cases = build_cases(tier, rng, cv)
-    for s, tag in FIXED:
+    for s, tag in FIXED + bicyclic_cases(tier):
         try:
             ft = parse_full(s)
             assert gen.render(ft, "full") == s
@@ -130,8 +151,11 @@ def run(rep, tier, driver):
                               "non-empty valid molecule", key="fixed:" + c["iupac"])
             continue
         if c.get("fixed") and (o["kind"] != "ok" or not o.get("smiles") or o.get("validity")):
+            # a 3,6-anhydro-hexofuranose linked through its anomeric OH: Monomer.get_structure takes the bridge ring for the main ring
+            # (known finding, one entry per residue; a wrong molecule or any other residue is reported under the input's own key)
+            m = re.search(r"(3,6-Anhydro-[A-Z][a-z]+f)\(", c["iupac"])
             rep.violation("input", {"iupac": c["iupac"]}, {"result": o.get("smiles"), "exc": o.get("exc"), "validity": o.get("validity")},
-                          "non-empty valid molecule", key="fixed:" + c["iupac"])
+                          "non-empty valid molecule", key=("main-ring:" + m.group(1)) if (m and not o.get("smiles")) else ("fixed:" + c["iupac"]))
             continue
         judge(rep, c, o)
     merge_correspondence(rep, tier, driver, cases, outs)
